@@ -112,4 +112,14 @@ for _p, _r in [("C14", viewfam.run_c14), ("C17", viewfam.run_c17), ("C18", viewf
     REGISTRY[_p] = dict(run=_r, replay=doc_replay, level="model_checking", assumptions=VIEW_ASSUME, engine="tlc-views",
                         level_text=_VT[_p], level_note=VIEW_NOTE, technique=VIEW_TECH)
 
+REGISTRY["C12"] = dict(run=viewfam.run_c12, replay=doc_replay, level="model_checking", engine="tlc-views",
+                       assumptions=["TLC enumerates the finite table of (entry point, class, context) triples of spec/Convert.tla completely",
+                                    "members of the wide integer classes (32/64 bit) and of float32 are boundaries plus seeded samples; 8/16-bit widths are exhaustive in the thorough tier",
+                                    "numeric equality is judged by the harness with math/big and exact float32<->float64 round trips"],
+                       level_text="Every (entry point x native class x nesting context) triple of the conversion table in Convert.tla is executed on the real API with the members of the class; TypeOf, dynamic Go type and value of Get, the typed-getter matrix, freshness of converted Go maps/slices, identity of stored containers and rejection of unsupported types are compared with the table.",
+                       level_note="The class table is enumerated completely by TLC; the members of wide numeric classes are sampled. Trusted: TLC, math/big.",
+                       technique="TLA+ conversion table (Convert.tla, NormalFormLaw) enumerated by TLC; every triple executed on the real entry points with exhaustive / sampled class members")
+ENGINES[-1]["serves_properties"].append("C12")
+ENGINES[-1]["path"] += " spec/Convert.tla harness/cmd/vh/convert.go"
+
 PENDING = {}
